@@ -29,6 +29,13 @@ const (
 	// a crash between the body put and the header put of one block, after which a child of
 	// that block is offered: insertSidechain dereferences the missing header
 	clsTornBlockPanic = "post-crash-panic-insert-sidechain"
+	// insertSidechain stores the blocks of a side chain (WriteBlockWithoutState) before anything but their
+	// headers is checked and leaves them stored when their re-import fails (BAD BLOCK); ValidateBody then takes
+	// any stored parent whose header names an existing state for an executed block: a child offered later is
+	// executed on top of the rejected block and the reorganisation makes the invalid block canonical. Reached
+	// after a crash left a block without state (the only way into insertSidechain with the solo engine) and
+	// for invalid variants of blocks that change no state (their state root is the parent's)
+	clsStoredUnvalidated = "stored-unvalidated-block-adopted"
 )
 
 // ---------------------------------------------------------------------------------
@@ -625,7 +632,7 @@ func (r *run) crashCall(j int, base crashdb.Snapshot, raw []logEntry, blocks typ
 			if pos.tornBlock && tolerate(clsTornBlockPanic) {
 				continue
 			}
-			if out := r.continueAfterCrash(j, k, base, L, where); out != nil {
+			if out := r.continueAfterCrash(j, k, base, L, where, strict); out != nil {
 				return out
 			}
 		}
@@ -641,7 +648,7 @@ func main2snap(r *run, raw []logEntry, base crashdb.Snapshot) crashdb.Snapshot {
 // continueAfterCrash restarts at prefix k and offers the remaining calls (at most 3)
 // without re-offering the interrupted one: the restarted node is an ordinary node, so
 // the first sentence of the statement must hold after every further import.
-func (r *run) continueAfterCrash(j, k int, base crashdb.Snapshot, L []logEntry, where func(int) string) *kit.Result {
+func (r *run) continueAfterCrash(j, k int, base crashdb.Snapshot, L []logEntry, where func(int) string, strict bool) *kit.Result {
 	u := r.u
 	n, err := startNode(r.f, crashdb.Materialise(base, L[:k]))
 	if err != nil {
@@ -655,6 +662,13 @@ func (r *run) continueAfterCrash(j, k int, base crashdb.Snapshot, L []logEntry, 
 			continue
 		}
 		before := n.bc.CurrentBlock()
+		// invalid blocks the node holds although it never accepted them, whose claimed state exists anyway
+		storedUnvalidated := map[common.Hash]bool{}
+		for _, b := range u.offer {
+			if _, bad := u.invalid[b.Hash()]; bad && n.bc.HasBlock(b.Hash(), b.NumberU64()) && n.bc.HasState(b.Root()) {
+				storedUnvalidated[b.Hash()] = true
+			}
+		}
 		ierr, pv, stack := n.insert(blocks)
 		if pv != nil {
 			out := kit.Fail("post-crash-"+panicClass(stack), "%s\nthe restarted node then imports call %d = InsertChain(%s) and panics: %v\n%s", where(k), i, r.describe(blocks), pv, trimStack(stack))
@@ -664,7 +678,31 @@ func (r *run) continueAfterCrash(j, k int, base crashdb.Snapshot, L []logEntry, 
 			r.label("continued-reorg")
 		}
 		if fs := checkInvariants(n, u); len(fs) > 0 {
-			out := kit.Fail("post-crash-"+fs[0].kind, "%s\nthe restarted node then imports call %d = InsertChain(%s) (err=%v):\n%s", where(k), i, r.describe(blocks), ierr, joinFails(fs))
+			// known finding: the lowest invalid canonical block was already stored (rejected or never executed)
+			// before this call and the state its header names existed
+			var low *types.Block
+			for num := uint64(1); num <= n.bc.CurrentBlock().NumberU64() && low == nil; num++ {
+				if b := n.bc.GetBlockByNumber(num); b != nil {
+					if _, bad := u.invalid[b.Hash()]; bad {
+						low = b
+					}
+				}
+			}
+			onlyInvalid := true
+			for _, f := range fs {
+				if f.kind != fInvalid && !(f.kind == fBlockIndex && low != nil && f.num >= low.NumberU64()) {
+					onlyInvalid = false
+				}
+			}
+			if low != nil && onlyInvalid && storedUnvalidated[low.Hash()] && !strict && kit.IsKnown(clsStoredUnvalidated) {
+				r.label("excluded:" + clsStoredUnvalidated)
+				return nil
+			}
+			cls := "post-crash-" + fs[0].kind
+			if low != nil && onlyInvalid && storedUnvalidated[low.Hash()] {
+				cls = clsStoredUnvalidated
+			}
+			out := kit.Fail(cls, "%s\nthe restarted node then imports call %d = InsertChain(%s) (err=%v):\n%s", where(k), i, r.describe(blocks), ierr, joinFails(fs))
 			return &out
 		}
 	}
